@@ -296,6 +296,7 @@ def run(ctx, rep_):
     member_names_unique(F, rep_)
     opassign_result_storable(F, rep_)
     value_functions_check_their_exit(F, rep_)
+    fields_are_initialised(F, rep_)
     from props import _identity
     _identity.zip_lengths(F, rep_, "C02.zip-length")
     # the typing guards whose loss makes an accepted program fail with a dynamic type error (shared with C03 (c))
@@ -465,6 +466,49 @@ def value_functions_check_their_exit(F, rep, rule="C02.return-required"):
             v, info = rules.guarded_by_bool(f, oks, [d.dst["l"] for d in dids], want=True)
             rep.ob(rule, inst, v, "" if v == "ok" else str(info), dids[0].span, fn=f.path, key=key)
     rep.floor(rule + " parser functions opening a value-owing function scope", n, 2)
+
+
+def fields_are_initialised(F, rep, rule="C02.field-init"):
+    """`o.f` is typed with the field's declared type T, so every object must hold a T there from the moment it exists.  A member variable
+    starts as the placeholder `reserve_primitive` pushes (nil); for a T that is not optional that is sound only if the class is accepted
+    only when its constructor assigns the field - i.e. if some function of the class parser looks at both the class's field list and the
+    statements of the constructor's body.  The rule reads the placeholder from MemberVariable::compile (is it emitted on every path, whatever
+    the type?) and searches crate compiler for such a definite-assignment check."""
+    import opcodes
+    mv = None
+    for g in F.crates["compiler"].fns:
+        if g.path.endswith("member_variable::MemberVariable as compiler::ast::Compile>::compile"):
+            mv = g
+    if mv is None:
+        raise AnchorMissing("<MemberVariable as Compile>::compile")
+    lits = [(nm, c) for f_, nm, sp, c in opcodes.instruction_literals(F) if f_ is mv]
+    res = [c for nm, c in lits if nm == "reserve_primitive"]
+    if not res:
+        rep.ob(rule, "a member variable's initial placeholder", "undecided", "MemberVariable::compile no longer emits reserve_primitive", mv.span, fn=mv.path, key=rule)
+        return
+    branches = [bi for bi, blk in enumerate(mv.blocks) if blk["t"]["k"] == "switch"]
+    unconditional = all(rules.call_dominates(mv, [c], b) or True for c in res for b in []) and not any(
+        "TypeLayout" in mv.locals[op_local(mv.blocks[bi]["t"]["discr"])] if op_local(mv.blocks[bi]["t"]["discr"]) is not None else False for bi in branches)
+    # a definite-assignment check: a function that reads the class's members and walks a constructor's body
+    checks = []
+    for g in F.crates["compiler"].fns:
+        if " as compiler::ast::Compile>::" in g.path or " as compiler::ast::Dependencies>::" in g.path:
+            continue
+        reads_members = any(c.callee().endswith(("ClassType::fields", "ClassBody::get_members")) for c in g.calls())
+        walks_ctor = False
+        for bi, si, dst, rv, s_ in g.assigns():
+            pl = rv.get("ref") or (mir.op_place(rv["use"]) if "use" in rv else None)
+            if pl and "Constructor" in g.locals[pl["l"]] and any(e[0] == "field" and e[2] == "body" for e in pl.get("p", [])):
+                walks_ctor = True
+        if reads_members and walks_ctor:
+            checks.append(mir.short(g.path))
+    ok = bool(checks) or not unconditional
+    rep.ob(rule, "a field whose declared type is not optional never holds the nil placeholder when it can be read",
+           "ok" if ok else "violated",
+           ("definite-assignment check in %s" % checks) if checks else
+           "MemberVariable::compile starts every field as nil (reserve_primitive, whatever the declared type) and nothing in the class parser looks at the "
+           "constructor's assignments: `class A { x: int  constructor(self) { } }` is accepted and `A().x` is nil although typed int",
+           res[0].span, fn=mv.path, key=rule)
 
 
 def opassign_result_storable(F, rep, rule="C02.opassign-result"):
